@@ -453,7 +453,16 @@ def wrapper(chk):
         npart = call[0].targets[0].id
         txt = [unparse(s) for s in fn.body]
         sl = [t for t in txt if f'[:{npart}]' in t]
-        ok = len(sl) >= 2 and [unparse(a) for a in call[0].value.args][:5] == ['data', 'boxsize', 'velzspace_to_kms', '_posout', '_velout']
+        from ..core.idioms import _alias_of
+        defs_ = {}
+        for n_ in walk_no_nested(fn):
+            if isinstance(n_, ast.Assign) and len(n_.targets) == 1 and isinstance(n_.targets[0], ast.Name) and n_.targets[0].id not in ('posout', 'velout'):
+                defs_.setdefault(n_.targets[0].id, []).append(n_.value)
+        a_ = call[0].value.args
+        # positions 3 and 4 carry the position / velocity output: the value derives from the caller's posout (resp. velout) and from nothing of the other
+        okpos = len(a_) >= 5 and _alias_of(a_[3], 'posout', defs_) is not None and _alias_of(a_[3], 'velout', defs_) is None \
+            and _alias_of(a_[4], 'velout', defs_) is not None and _alias_of(a_[4], 'posout', defs_) is None
+        ok = len(sl) >= 2 and [unparse(a) for a in a_][:3] == ['data', 'boxsize', 'velzspace_to_kms'] and okpos
         detail = f'count variable {npart}; truncations {len(sl)}'
     chk.check(ok, 'C15-R2', P9, 'unpack_pack9', 'allocated outputs truncated to the decoded particle count; kernel argument order', detail,
               f'wrapper does not truncate both outputs to the decoded count or passes arguments in another order ({detail})', node=fn)
